@@ -61,6 +61,8 @@ def request_st(draw, spec):
     path = path.replace(";", "%3B").replace("?", "%3F").replace("#", "%23").replace("\x00", "%00").replace("\n", "%0A")
     path = "".join(ch if 0x20 < ord(ch) < 0x7F else "".join("%%%02X" % b for b in ch.encode("utf-8", "surrogateescape")) for ch in path)
     n = draw(st.sampled_from([0, 0, 1, 10, 63, 64, 65, 200, 5000]))
+    if "aim-existing" in labels and draw(st.booleans()):
+        n = 0  # deletes need an existing target to succeed
     content = bytes((i * 13 + 5) & 0xFF for i in range(n))
     tok = draw(st.sampled_from([None, "tok-1", "tok-2", "wrong", "", "tok-1;token=wrong", "wrong;token=tok-1"]))
     mime = draw(st.sampled_from([None, "text/gemini", "text/plain", "image/png", "application/x-evil"]))
